@@ -3,7 +3,7 @@
   printer → parser round trip: `FloatRT f` holds for every float the parser can produce, given only
   that the digit search of `Display for f64` succeeds (`H17`).
 -/
-import Jawk.Lemmas.RoundTripLex
+import Jawk.Lemmas.RoundTrip
 import Jawk.Lemmas.F64RoundTrip
 namespace Jawk.Ser
 open Jawk Jawk.F64 Jawk.F64RT
@@ -472,6 +472,116 @@ theorem readNumber_parsed {fuel : Nat} {r r' : Reader} {v : JV}
   obtain ⟨_, _, _, h⟩ := PM.bind_ok_inv h
   exact finishNumber_parsed h
 
+/-! ### parsed doubles are canonical -/
+
+theorem ofDecimal_canonical (neg : Bool) (mant nd : Nat) (e : Int) : Canonical (ofDecimal neg mant nd e) := by
+  have hz : Canonical (fin neg 0 (-1074)) := ⟨by decide, by decide, by decide, fun _ => rfl⟩
+  unfold ofDecimal
+  split
+  · exact hz
+  · split
+    · split
+      · trivial
+      · exact roundRat_canonical _ _ _
+    · split
+      · exact hz
+      · exact roundRat_canonical _ _ _
+
+theorem parseAfterSign_canonical {neg : Bool} {s : List Char} {f : F64} (h : parseAfterSign neg s = some f) :
+    Canonical f := by
+  unfold parseAfterSign at h
+  simp only at h
+  repeat' split at h
+  all_goals first
+    | (cases h; exact ofDecimal_canonical _ _ _ _)
+    | cases h
+
+/-- whatever `str::parse::<f64>` returns is in canonical form -/
+theorem parseDecimal_canonical {s : List Char} {f : F64} (h : parseDecimal s = some f) : Canonical f := by
+  have : ∃ neg r, parseDecimal s = parseAfterSign neg r := by
+    unfold parseDecimal
+    split
+    rename_i x neg r heq
+    exact ⟨neg, r, rfl⟩
+  obtain ⟨neg, r, e⟩ := this
+  rw [e] at h
+  exact parseAfterSign_canonical h
+
+theorem ofF64_flt_inv {f g : F64} (h : Num.ofF64 f = .flt g) : g = f := by
+  unfold Num.ofF64 at h
+  split at h
+  · split at h
+    · cases h
+    · split at h
+      · cases h
+      · cases h; rfl
+  · cases h; rfl
+
+/-! ### whole values: the round trip printer → parser under `H17` only -/
+
+mutual
+/-- The values the parser can produce (and the printer can print so that they are read back), stated
+without `FloatRT`: numbers as in `ParsedNum` with the digit search succeeding on each float (`H17`);
+strings in the BMP unless `utf8Strings` is set; member names pairwise distinct. -/
+def Parsed (o : JsonOpts) : JV → Prop
+  | .null => True
+  | .bool _ => True
+  | .num n => ParsedNum n ∧ ∀ f, n = .flt f → (F64.toDisplay? f).isSome = true
+  | .str s => RT.StrOK o s
+  | .arr vs => ParsedList o vs
+  | .obj kvs => ParsedMembers o kvs ∧ (kvs.map (·.1)).Nodup
+def ParsedList (o : JsonOpts) : List JV → Prop
+  | [] => True
+  | v :: vs => Parsed o v ∧ ParsedList o vs
+def ParsedMembers (o : JsonOpts) : List (Str × JV) → Prop
+  | [] => True
+  | (k, v) :: kvs => RT.StrOK o k ∧ Parsed o v ∧ ParsedMembers o kvs
+end
+
+mutual
+theorem printable_of_parsed (o : JsonOpts) : ∀ (v : JV), Parsed o v → RT.Printable o v
+  | .null, _ => by rw [RT.Printable]; exact True.intro
+  | .bool _, _ => by rw [RT.Printable]; exact True.intro
+  | .num n, h => by
+    rw [Parsed] at h; rw [RT.Printable]
+    exact numPrintable_of_parsed n h.1 h.2
+  | .str s, h => by rw [Parsed] at h; rw [RT.Printable]; exact h
+  | .arr vs, h => by
+    rw [Parsed] at h; rw [RT.Printable]
+    exact printableList_of_parsed o vs h
+  | .obj kvs, h => by
+    rw [Parsed] at h; rw [RT.Printable]
+    exact ⟨printableMembers_of_parsed o kvs h.1, h.2⟩
+theorem printableList_of_parsed (o : JsonOpts) : ∀ (vs : List JV), ParsedList o vs → RT.PrintableList o vs
+  | [], _ => by rw [RT.PrintableList]; exact True.intro
+  | v :: vs, h => by
+    rw [ParsedList] at h; rw [RT.PrintableList]
+    exact ⟨printable_of_parsed o v h.1, printableList_of_parsed o vs h.2⟩
+theorem printableMembers_of_parsed (o : JsonOpts) :
+    ∀ (kvs : List (Str × JV)), ParsedMembers o kvs → RT.PrintableMembers o kvs
+  | [], _ => by rw [RT.PrintableMembers]; exact True.intro
+  | (k, v) :: kvs, h => by
+    rw [ParsedMembers] at h; rw [RT.PrintableMembers]
+    exact ⟨h.1, printable_of_parsed o v h.2.1, printableMembers_of_parsed o kvs h.2.2⟩
+end
+
+/-- **C01/C02 without `FloatRT`.** `RT.parse_print_ready` for every value of the kind the parser produces:
+the only assumption left about floats is `H17` (inside `Parsed`), the success of the digit search. -/
+theorem parse_print_parsed (o : JsonOpts) (v : JV) (hv : Parsed o v) (rest : List Byte)
+    (hd : RT.Delim v rest) (r : Reader) (hr : RT.Ready r (utf8 (printJson o v) ++ rest))
+    (fuel : Nat) (hf : RT.fuelBound o v ≤ fuel) :
+    ∃ r', nextValue fuel r = (.ok (some (RT.norm v)), r') ∧ RT.Ready r' rest :=
+  RT.parse_print_ready o v (printable_of_parsed o v hv) rest hd r hr fuel hf
+
+/-- non-vacuity: `[0.1, "é"]` -/
+example : Parsed {} (.arr [.num (.flt (fin false 7205759403792794 (-56))), .str ['é']]) := by
+  rw [Parsed, ParsedList, ParsedList, ParsedList, Parsed, Parsed]
+  refine ⟨⟨⟨rfl, by decide +kernel⟩, ?_⟩, ?_, True.intro⟩
+  · intro f hf; cases hf; decide +kernel
+  · intro c hc
+    simp only [List.mem_cons, List.not_mem_nil, or_false] at hc
+    subst hc; exact Or.inl (by decide)
+
 /-- non-vacuity: `0.1` is a parsed number and is printable (its digit search succeeds) -/
 example : RT.NumPrintable (.flt (fin false 7205759403792794 (-56))) :=
   numPrintable_of_parsed _ ⟨rfl, by decide +kernel⟩
@@ -487,3 +597,4 @@ end Jawk.Ser
 -- #print axioms Jawk.Ser.floatRT_of_display
 -- #print axioms Jawk.Ser.numPrintable_of_parsed
 -- #print axioms Jawk.Ser.readNumber_parsed
+-- #print axioms Jawk.Ser.parse_print_parsed
